@@ -127,11 +127,10 @@ macro_rules! array_char {
 
         // get array elements
         let elems = string
-            .replace("[", "").replace("]", "").replace("'", "")
+            .replace("[", "").replace("]", "").replace("', '", "','").replace("'", "")
             .split(",")
             .map(|e| e.parse().unwrap())
             .collect::<Vec<_>>();
-
         // return array
         Array::<char>::new(elems, shape)
     }};
